@@ -1,6 +1,9 @@
 //! Monitor plugins registered through liquid's public extension points.
 //!  * filter `vdump`  : prints the strict dump of its input (structure at the boundary)
 //!  * tag `{% envdump a b %}` : for each name prints try_get / get / roots membership / counter
+//!  * tag `{% pprobe expr %}` : asks the runtime's partial store about the name `expr` evaluates to
+//!    through every method of the PartialStore interface (contains / names / try_get / get) and
+//!    renders what try_get handed out
 use crate::val::dump_view;
 use liquid_core::error::ResultLiquidReplaceExt;
 use liquid_core::model::{Scalar, Value, ValueView};
@@ -116,6 +119,59 @@ impl Renderable for EnvDump {
                 envdump_entry(n, t.as_deref(), g.as_deref(), r, i.as_deref())
             )
             .replace("Failed to render")?;
+        }
+        write!(writer, "»").replace("Failed to render")?;
+        Ok(())
+    }
+}
+
+#[derive(Copy, Clone, Debug, Default)]
+pub struct PartialProbeTag;
+
+impl TagReflection for PartialProbeTag {
+    fn tag(&self) -> &'static str {
+        "pprobe"
+    }
+    fn description(&self) -> &'static str {
+        "harness monitor"
+    }
+}
+
+impl ParseTag for PartialProbeTag {
+    fn parse(&self, mut arguments: TagTokenIter<'_>, _options: &Language) -> Result<Box<dyn Renderable>> {
+        let name = arguments.expect_next("name expected")?.expect_value().into_result()?;
+        arguments.expect_nothing()?;
+        Ok(Box::new(PartialProbe { name }))
+    }
+    fn reflection(&self) -> &dyn TagReflection {
+        self
+    }
+}
+
+#[derive(Debug)]
+struct PartialProbe {
+    name: liquid_core::runtime::Expression,
+}
+
+impl Renderable for PartialProbe {
+    fn render_to(&self, writer: &mut dyn Write, runtime: &dyn Runtime) -> Result<()> {
+        let name = self.name.evaluate(runtime)?.to_kstr().into_owned();
+        let store = runtime.partials();
+        let c = store.contains(name.as_str());
+        let t = store.try_get(name.as_str());
+        let g = store.get(name.as_str()).is_ok();
+        let mut names: Vec<String> = store.names().iter().map(|s| s.to_string()).collect();
+        names.sort();
+        write!(writer, "«P c={} t={} g={} n={} r=", c as u8, t.is_some() as u8, g as u8, names.join(",")).replace("Failed to render")?;
+        match t {
+            Some(p) => {
+                let mut buf: Vec<u8> = Vec::new();
+                match p.render_to(&mut buf, runtime) {
+                    Ok(()) => writer.write_all(&buf).replace("Failed to render")?,
+                    Err(_) => write!(writer, "!").replace("Failed to render")?,
+                }
+            }
+            None => write!(writer, "-").replace("Failed to render")?,
         }
         write!(writer, "»").replace("Failed to render")?;
         Ok(())
